@@ -124,6 +124,30 @@ Proof. exact history_app. Qed.
 Theorem C09_history_flat : forall s c n, in_fragment s c -> history s (repeat c n) = res0.
 Proof. exact history_repeat_zero. Qed.
 
+(* ---- vnc update-request queue (the service itself is only observed, part "sweep") ---- *)
+
+(* at HEAD ([fixed] = false): once the frame pusher is gone, more buffered update requests than
+   free queue slots make serve() wait for ever - for every schedule *)
+Theorem C09_vnc_queue_blocks_at_head : forall sched reqs q,
+  (q <= VNC_QCAP)%nat -> (VNC_QCAP - q < reqs)%nat -> serve_queue false sched reqs q PGone = QBlocked.
+Proof. exact serve_queue_head_blocks. Qed.
+
+(* with the send selecting on 'pusher gone' (fixes/C09-vnc-serve-does-not-wait-for-a-gone-pusher.patch)
+   serve() never waits for ever: for every number of buffered requests, queue filling, pusher
+   state and schedule of the pusher *)
+Theorem C09_vnc_queue_never_blocks_with_fix : forall sched reqs q p,
+  serve_queue true sched reqs q p <> QBlocked.
+Proof. exact serve_queue_fixed_never_blocks. Qed.
+
+(* the witness replayed on the implementation (sweep, vnc scenario 5): the pusher takes the
+   first request and gives up; 129 pipelined requests still fit, the 130th waits for ever *)
+Example C09_vnc_queue_130 :
+  let sched := [mkPact 0 false; mkPact 1 true] in
+  serve_queue false sched 129 0 PAlive = QDone 128 PGone /\
+  serve_queue false sched 130 0 PAlive = QBlocked /\
+  serve_queue true sched 130 0 PAlive = QFailed.
+Proof. vm_compute. repeat split; reflexivity. Qed.
+
 (* ---- non-vacuity and the former witnesses, now as positive examples ---- *)
 
 Definition str_USER := [85;83;69;82;32;97;110;111;110;121;109;111;117;115;13;10]%N.
@@ -162,6 +186,9 @@ Example C09_datagram_witnesses_now_return :
   let d1 := [27;0;0;0]%N in
   let d2 := (s_CNXN ++ repeat 0 20)%N in
   let d3 := ([0;1;0;0;0;1;0;0] ++ [115;101;116;32;107;32;48;32;48;32;57;13;10])%N in
+  (* the zero-length datagram: no segment at all, the stream is at its end at once *)
+  h_out (handle (mkScn Ntp true false DialNone) (fuel_for (mkConn [] TEof m0)) (mkConn [] TEof m0)) = Returned /\
+  m_reads (c_m (h_conn (handle (mkScn Ntp true false DialNone) (fuel_for (mkConn [] TEof m0)) (mkConn [] TEof m0)))) = 1%N /\
   h_out (handle (mkScn Ntp true false DialNone) (fuel_for (mkConn [d1] TEof m0)) (mkConn [d1] TEof m0)) = Returned /\
   h_out (handle (mkScn Echo true false DialNone) (fuel_for (mkConn [d1] TEof m0)) (mkConn [d1] TEof m0)) = Returned /\
   h_out (handle (mkScn Adb true false DialNone) (fuel_for (mkConn [d2] TEof m0)) (mkConn [d2] TEof m0)) = Returned /\
@@ -209,3 +236,5 @@ Print Assumptions C09_released_ftp.
 Print Assumptions C09_released_other_services.
 Print Assumptions C09_history_additive.
 Print Assumptions C09_history_flat.
+Print Assumptions C09_vnc_queue_blocks_at_head.
+Print Assumptions C09_vnc_queue_never_blocks_with_fix.
